@@ -628,6 +628,22 @@ func (c *Ctx) packerUsesField(packer *ssa.Function, field *types.Var) bool {
 func (c *Ctx) checkFileMeta() {
 	r := c.R
 	n := 0
+	// the per-child content-size field: what the FileSize sum helper adds up
+	byteFields := map[*types.Var]bool{}
+	for _, fn := range c.G.Funcs() {
+		if rel, ok := c.P.PkgOf(fn); !ok || rel != "data/builder" {
+			continue
+		}
+		for _, ci := range core.CallsIn(fn) {
+			if f := ci.Common().StaticCallee(); f != nil && f.Name() == "FileSize" && len(ci.Common().Args) == 2 {
+				if h, ok := resolveLocal(ci.Common().Args[1]).(*ssa.Call); ok {
+					if kind, fld := c.sumHelper(h.Call.StaticCallee()); kind == "sum" && fld != nil {
+						byteFields[fld] = true
+					}
+				}
+			}
+		}
+	}
 	for _, fn := range c.G.Funcs() {
 		rel, ok := c.P.PkgOf(fn)
 		if !ok || rel != "data/builder" || fn.Parent() != nil {
@@ -731,7 +747,7 @@ func (c *Ctx) checkFileMeta() {
 					continue
 				}
 				_, fv, ok := core.FieldAddrOf(st.Addr)
-				if !ok || fv.Name() != "byteSize" {
+				if !ok || !byteFields[fv] {
 					continue
 				}
 				chunk, isLen := lenOf(st.Val)
